@@ -425,6 +425,17 @@ func probeResurrected(x *Exec, ever map[int]map[uint64]bool) error {
 			bs = append(bs[:3], bs[len(bs)-3:]...)
 		}
 		sz := (bs[len(bs)-1] + 1) * BlockSize
+		if f.Size > 0 && probed%2 == 1 {
+			// first a small write that starts inside the file and ends beyond its end (the file may still be
+			// shrinking from before the crash: the request must finish that job before it extends the file)
+			off := f.Size - 1
+			if f.Size > 100 {
+				off = f.Size - 100
+			}
+			if err := x.Write(LiveRef(f), off, patternData(0xabc0+uint32(probed), 150), 150, nt.FILE_SYNC); err != nil {
+				return err
+			}
+		}
 		if err := x.Setattr(LiveRef(f), &sz, false); err != nil {
 			return err
 		}
